@@ -108,7 +108,7 @@ func init() {
 				with(famGraph(3, 0, 5), func(m *SeqModel) { m.Name = "chains-tasks"; m.Extras = []string{"chains"}; m.StateArgs = nil; m.CmdNames = []string{"new_task", "sequence", "sequence_rm"} }),
 				with(famGraph(0, 3, 5), func(m *SeqModel) { m.Name = "chains-epics"; m.Extras = []string{"chains"}; m.StateArgs = nil; m.CmdNames = []string{"new_epic", "sequence", "sequence_rm"} }),
 			},
-			CraftQuick: famCraft(600, "prune", "compact"), CraftThorough: famCraft(20000, "prune", "compact"),
+			CraftQuick: famCraft(600, "prune", "compact"), CraftThorough: famCraft(8000, "prune", "compact"),
 			Sim: with(famGraph(4, 2, 14), func(m *SeqModel) { m.Extras = append(m.Extras, "chains", "badid") }), SimNumQuick: 60, SimNumThorough: 2000}
 	}
 	registry["C08"] = func() Check {
@@ -116,7 +116,7 @@ func init() {
 			Ideal: famReady(3, 2, 5), IdealDeep: famReady(3, 2, 7), IdealProps: []string{"P_C08"}, IdealInvs: []string{"CodeReadyIsSpecReady"}, Probes: probeClaimOrder,
 			Proc: &ProcCheck{Prop: "C08", Scenarios: "ClaimScenarios", IdealInvs: []string{"Serializable"}, Only: []string{"C08_serial"}, MaxRunsQuick: 500},
 			GenQuick: famReady(2, 2, 4), GenThorough: famReady(3, 2, 6), SampleQuick: 120,
-			CraftQuick: famCraft(700, "claim", "list_ready"), CraftThorough: famCraft(40000, "claim", "list_ready"),
+			CraftQuick: famCraft(700, "claim", "list_ready"), CraftThorough: famCraft(8000, "claim", "list_ready"),
 			Sim: famReady(4, 2, 14), SimNumQuick: 60, SimNumThorough: 2000}
 	}
 	registry["C09"] = func() Check {
@@ -124,7 +124,7 @@ func init() {
 			Ideal: famIds(2, 1, 5), IdealDeep: famIds(3, 1, 6), IdealProps: []string{"P_C09"}, IdealInvs: []string{"CodePruneIsSpecPrune"}, Probes: probeReissue,
 			Proc: &ProcCheck{Prop: "C09", Scenarios: "PruneScenarios", IdealInvs: []string{"Serializable"}, Only: []string{"C09_serial"}},
 			GenQuick: famIds(2, 1, 4), GenThorough: famIds(2, 1, 6), SampleQuick: 100,
-			CraftQuick: famCraft(1200, "prune", "prune_dry"), CraftThorough: famCraft(40000, "prune", "prune_dry"),
+			CraftQuick: famCraft(1200, "prune", "prune_dry"), CraftThorough: famCraft(8000, "prune", "prune_dry"),
 			Sim: famIds(3, 2, 12), SimNumQuick: 60, SimNumThorough: 2000}
 	}
 	registry["C10"] = func() Check {
@@ -145,7 +145,7 @@ func init() {
 			Ideal: famIds(2, 2, 4), IdealDeep: famIds(3, 2, 6), IdealProps: []string{"P_C14"}, Probes: append(append([]emitted{}, probeEpicRef...), probeIDOrder...),
 			Proc: &ProcCheck{Prop: "C14", Scenarios: "PruneScenarios", IdealInvs: []string{"Serializable"}, Only: []string{"C14_final"}},
 			GenQuick: famIds(2, 1, 4), GenThorough: famIds(2, 2, 6), SampleQuick: 100,
-			CraftQuick: famCraft(800, "prune", "compact"), CraftThorough: famCraft(30000, "prune", "compact"),
+			CraftQuick: famCraft(800, "prune", "compact"), CraftThorough: famCraft(8000, "prune", "compact"),
 			Sim: famIds(3, 2, 12), SimNumQuick: 60, SimNumThorough: 2000}
 	}
 	registry["C15"] = func() Check {
